@@ -334,7 +334,7 @@ class _Continue(Exception):
     pass
 
 
-def run_function(fdef, args, kwargs=None, env=None, budget=20000, call_hook=None, is_subclass=None, active=None):
+def run_function(fdef, args, kwargs=None, env=None, budget=20000, call_hook=None, is_subclass=None, active=None, out_scope=None):
     """Interpret a pure function body (Assign / AugAssign / If / For / While-free / Return / Continue / Break / Expr / Pass)."""
     ev = Evaluator({}, budget=budget, call_hook=call_hook)
     scope = dict(env or {})
@@ -412,12 +412,16 @@ def run_function(fdef, args, kwargs=None, env=None, budget=20000, call_hook=None
             v = ev.ev(s.value, scope)
             for t in s.targets:
                 ev.bind(t, v, scope)
-        elif isinstance(s, ast.AugAssign) and isinstance(s.target, ast.Name):
-            cur = scope[s.target.id]
-            v = ev.ev(ast.BinOp(left=ast.Constant(cur), op=s.op, right=s.value), scope) if isinstance(cur, (int, float, str)) else None
-            if v is None:
+        elif isinstance(s, ast.AugAssign) and (isinstance(s.target, ast.Name) or (isinstance(s.target, ast.Attribute) and dotted(s.target)) or isinstance(s.target, ast.Subscript)):
+            cur = ev.ev(ast.copy_location(type(s.target)(**{**{f_: getattr(s.target, f_) for f_ in s.target._fields}, 'ctx': ast.Load()}), s.target), scope)
+            if isinstance(cur, (int, float, str)):
+                v = ev.ev(ast.BinOp(left=ast.Constant(cur), op=s.op, right=s.value), scope)
+            elif isinstance(cur, list) and isinstance(s.op, ast.Add):
+                cur.extend(list(ev.ev(s.value, scope)))
+                v = cur
+            else:
                 raise Unfoldable('augassign')
-            scope[s.target.id] = v
+            ev.bind(s.target, v, scope)
         elif isinstance(s, ast.If):
             block(s.body if ev.ev(s.test, scope) else s.orelse)
         elif isinstance(s, ast.For):
@@ -448,7 +452,14 @@ def run_function(fdef, args, kwargs=None, env=None, budget=20000, call_hook=None
     try:
         block(fdef.body)
     except _Return as r:
+        if out_scope is not None:
+            out_scope.update(scope)
         return yields if is_gen else r.v
+    except (_Continue, _Break):
+        pass            # a body lifted out of its loop: leaving the iteration ends it
+    finally:
+        if out_scope is not None:
+            out_scope.update(scope)
     return yields if is_gen else None
 
 
